@@ -16,3 +16,4 @@ CONSTANTS
   Now0 = 5
   Workloads = {0}
   KeepRunning = TRUE
+  DurabilityByOpener = FALSE
